@@ -27,6 +27,7 @@ EXPLANATION = (
     "absolute module name only under a test of its level.  R05.11: an effectful per-statement step is never short-circuited by "
     "the flag it accumulates.  R05.12: module-ness of a renamed name is decided on the object, not on the kind of the name.  R05.13: a from-import name obtained "
     "by splitting a dotted module name is its last component.  R05.14 (=R07.10): relative module lookup climbs (level - 1) packages on every path."
+    ' R05.17: the folder of the import filter belongs to the resource the organised module was built for.'
 )
 ASSUMPTIONS = [
     "helper summaries: self.m() resolves through the class MRO; x.y.m() is attributed to every method m of the analysed modules",
